@@ -26,6 +26,7 @@ impl<'l, Data> EventLoop<'l, Data> {
 //@ rw R10 1 <<&self.handle.inner.sources.borrow()>> => <<sources_cell>>
 //@ rw R10 1 <<self.handle.inner.poll.borrow()>> => <<poll_cell>>
 //@ bind WAIT <<poll.poll(>>
+//@ bind LOOPVAR <<let sources = &self.handle.inner.sources.borrow(); for>>
 //@ rw R19 1 <<poll.poll(>> => <<poll.poll_attempt(Ghost(attempt), >>
 //@ after <<let result = poll.poll(>>
                 proof { attempt = attempt + 1; }
@@ -61,9 +62,11 @@ fn before_sleep_and_wait(&mut self, extra_cell: &AdditionalLifecycleEventsSet, s
             &&& final(self).synthetic_events@.len() == old(self).synthetic_events@.len() ==> poll_cell.w_polled(timeout)
         },
 //@ entry
+    // (this overlay is for a loop that sets the timeout itself -- `bind LOOPVAR`: the loop follows the two borrows directly;
+    //  a body that declares a flag in between is judged by the alternative overlay below)
     let ghost timeout0 = timeout;
     let ghost mut attempt: nat = 0;
-    proof { broadcast use crate::ext_dur::axiom_duration_cmp; }
+    proof { broadcast use crate::ext_dur::axiom_duration_cmp, crate::ext_vec::axiom_iter_seq_option; }
 //@ loop 1
         invariant
             lifecycle_entries_live(extra_cell, sources_cell), sources_cell.wf(),
@@ -77,10 +80,15 @@ fn before_sleep_and_wait(&mut self, extra_cell: &AdditionalLifecycleEventsSet, s
             forall|k: int| 0 <= k < old(self).synthetic_events@.len() ==> self.synthetic_events@[k] == old(self).synthetic_events@[k],
             forall|k: int| old(self).synthetic_events@.len() <= k < self.synthetic_events@.len() ==>
                 synthetic_from_set(extra_cell, sources_cell, #[trigger] self.synthetic_events@[k]),
-//@ after <<self.synthetic_events.push(>>
-                        // C14: the event just queued is the one returned by the source of the current lifecycle entry (this is
-                        // also the witness for the existential in synthetic_from_set)
-                        assert(disp_of(sources_cell, extra_cell@[lit.index@]).w_synthetic(self.synthetic_events@.last().readiness, self.synthetic_events@.last().token)); /*@props C14*/
+//@ closure? <<|(readiness, token)| PollEvent { readiness, token }>>
+-> (ev: PollEvent) ensures ev.readiness == _vx_tup.0 && ev.token == _vx_tup.1
+//@ atloopstart <<for source in>>
+                let ghost n0 = self.synthetic_events@.len();
+//@ atloopend <<for source in>>
+                // C14: whatever this iteration queued is what the source of the current lifecycle entry returned (this is also
+                // the witness for the existential in synthetic_from_set). Stated at the end of the iteration, independent of HOW
+                // the body queues it (`push` inside an `if let`, `extend(option.map(..))`, ..)
+                assert(forall|k: int| n0 <= k < self.synthetic_events@.len() ==> disp_of(sources_cell, extra_cell@[lit.index@]).w_synthetic((#[trigger] self.synthetic_events@[k]).readiness, self.synthetic_events@[k].token)); /*@props C14*/
 //@ loop 2
         invariant
             self.synthetic_events@ == synth1,
@@ -88,6 +96,53 @@ fn before_sleep_and_wait(&mut self, extra_cell: &AdditionalLifecycleEventsSet, s
             $WAIT == timeout1 || poll_cell.w_polled(timeout1),
             // C12/C11: the wait is repeated ONLY after an attempt that was interrupted by a signal; any other error ends the
             // dispatch (it is returned, not retried)
+            attempt > 0 ==> poll_cell.w_interrupted((attempt - 1) as nat),
+//@ before <<let events =>>
+        let ghost synth1 = self.synthetic_events@;
+        let ghost timeout1 = $WAIT;
+//@ tail
+    Ok(())
+//@ alt
+//@ rw R12 * <<Duration::ZERO>> => <<crate::ext_dur::duration_zero()>>
+//@ rw R11 1 <<for source in &mut *extra_lifecycle_sources.values>> => <<for source in lit: extra_lifecycle_sources.values.iter()>>
+//@ rw R13 1 <<Ok(events) => break events,>> => <<Ok(events) => { return Ok(()); }>>
+//@ rw R10 1 <<self .handle .inner .sources_with_additional_lifecycle_events .borrow_mut()>> => <<extra_cell>>
+//@ rw R10 1 <<&self.handle.inner.sources.borrow()>> => <<sources_cell>>
+//@ rw R10 1 <<self.handle.inner.poll.borrow()>> => <<poll_cell>>
+//@ bind WAIT <<poll.poll(>>
+//@ rw R19 1 <<poll.poll(>> => <<poll.poll_attempt(Ghost(attempt), >>
+//@ bind FLAG <<let sources = &self.handle.inner.sources.borrow(); let mut>>
+//@ after <<let result = poll.poll(>>
+                proof { attempt = attempt + 1; }
+//@ closure? <<|(readiness, token)| PollEvent { readiness, token }>>
+-> (ev: PollEvent) ensures ev.readiness == _vx_tup.0 && ev.token == _vx_tup.1
+//@ entry
+    // (alternative overlay for a body that remembers in a FLAG -- declared right before the loop -- whether a synthetic event
+    //  was returned and forces the zero timeout after the loop: the contract is the same, the flag must be ACCUMULATED)
+    let ghost timeout0 = timeout;
+    let ghost mut attempt: nat = 0;
+    proof { broadcast use crate::ext_dur::axiom_duration_cmp, crate::ext_vec::axiom_iter_seq_option; }
+//@ loop 1
+        invariant
+            lifecycle_entries_live(extra_cell, sources_cell), sources_cell.wf(),
+            lit.seq().len() == extra_cell@.len(),
+            forall|i: int| 0 <= i < lit.seq().len() ==> *(#[trigger] lit.seq()[i]) == extra_cell@[i],
+            forall|i: int| 0 <= i < lit.index@ ==> disp_of(sources_cell, #[trigger] extra_cell@[i]).w_before_sleep(),
+            // the wait's timeout is untouched inside the loop; the flag says whether ANY source so far returned an event
+            $WAIT == timeout0,
+            $FLAG <==> self.synthetic_events@.len() > old(self).synthetic_events@.len(),
+            self.synthetic_events@.len() >= old(self).synthetic_events@.len(),
+            forall|k: int| 0 <= k < old(self).synthetic_events@.len() ==> self.synthetic_events@[k] == old(self).synthetic_events@[k],
+            forall|k: int| old(self).synthetic_events@.len() <= k < self.synthetic_events@.len() ==>
+                synthetic_from_set(extra_cell, sources_cell, #[trigger] self.synthetic_events@[k]),
+//@ atloopstart <<for source in>>
+                let ghost n0 = self.synthetic_events@.len();
+//@ atloopend <<for source in>>
+                assert(forall|k: int| n0 <= k < self.synthetic_events@.len() ==> disp_of(sources_cell, extra_cell@[lit.index@]).w_synthetic((#[trigger] self.synthetic_events@[k]).readiness, self.synthetic_events@[k].token)); /*@props C14*/
+//@ loop 2
+        invariant
+            self.synthetic_events@ == synth1,
+            $WAIT == timeout1 || poll_cell.w_polled(timeout1),
             attempt > 0 ==> poll_cell.w_interrupted((attempt - 1) as nat),
 //@ before <<let events =>>
         let ghost synth1 = self.synthetic_events@;
